@@ -4,7 +4,7 @@ use indexmap::IndexSet;
 pub use options::{Options, Regex};
 use patch_flags::PatchFlags;
 use slot_flag::SlotFlag;
-use std::{borrow::Cow, collections::BTreeMap, mem};
+use std::{borrow::Cow, cell::Cell, collections::BTreeMap, mem};
 use swc_core::{
     common::{comments::Comments, Mark, Span, Spanned, SyntaxContext, DUMMY_SP},
     ecma::{
@@ -56,6 +56,9 @@ where
 
     assignment_left: Option<Ident>,
     injecting_consts: Vec<VarDeclarator>,
+
+    /// nesting depth of the type resolution in progress (guards against circular types)
+    type_resolution_depth: Cell<usize>,
 }
 
 impl<C> VueJsxTransformVisitor<C>
@@ -83,6 +86,8 @@ where
 
             assignment_left: None,
             injecting_consts: Default::default(),
+
+            type_resolution_depth: Cell::new(0),
         }
     }
 
